@@ -1342,8 +1342,12 @@ impl<D: TextDecorator> Renderer for SubRenderer<D> {
             self.options.clone(),
             self.decorator.make_subblock_decorator(),
         );
-        // Copy the annotation stack
+        // Copy the annotation stack, and the rest of the inherited text state:
+        // white-space mode, preformatted nesting and text filters (strikeout).
         result.ann_stack = self.ann_stack.clone();
+        result.ws_stack = self.ws_stack.clone();
+        result.pre_depth = self.pre_depth;
+        result.text_filter_stack = self.text_filter_stack.clone();
         Ok(result)
     }
 
